@@ -95,6 +95,42 @@ def make(targets, timeout=1500):
 STMT_RE = re.compile(r"^\s*(Theorem|Lemma|Corollary|Example)\s+([A-Za-z0-9_']+)", re.M)
 
 
+FORBIDDEN = re.compile(r"\b(Admitted|admit|Axiom|Axioms|Parameter|Parameters|Conjecture|Conjectures)\b|Admit Obligations|"
+                       r"Unset\s+(Guard|Positivity|Universe)\s+Checking|bypass_check|type-in-type|impredicative-set")
+SECTION_ONLY = re.compile(r"^\s*(Variable|Variables|Hypothesis|Hypotheses|Context)\b")
+
+
+def scan_forbidden():
+    """Every .v file of the development (generated ones included): no axiom-declaring command, no admitted proof, no
+    switched-off kernel check; Variable/Hypothesis only inside a section.  Returns [(file, line number, text)]."""
+    bad = []
+    for root, _, files in os.walk(THEORIES):
+        for fn in sorted(files):
+            if not fn.endswith(".v"):
+                continue
+            path = os.path.join(root, fn)
+            try:
+                text = open(path, encoding="utf-8").read()
+            except OSError:
+                continue
+            text = re.sub(r"\(\*.*?\*\)", lambda m: "\n" * m.group(0).count("\n"), text, flags=re.S)   # comments
+            text = re.sub(r'"(?:[^"]|"")*"', '""', text)                                              # string literals
+            depth = 0
+            for i, line in enumerate(text.split("\n"), 1):
+                if re.match(r"^\s*(Section|Module)\s+\w+", line) and not re.match(r"^\s*Module\s+\w+\s*:=", line):
+                    depth += 1
+                elif re.match(r"^\s*End\s+\w+\s*\.", line):
+                    depth = max(0, depth - 1)
+                if FORBIDDEN.search(line) and not re.search(r"TRANSLATOR_FAILED", line):
+                    bad.append((os.path.relpath(path, COQ), i, line.strip()[:120]))
+                elif depth == 0 and SECTION_ONLY.match(line):
+                    bad.append((os.path.relpath(path, COQ), i, line.strip()[:120]))
+    proj = os.path.join(COQ, "_CoqProject")
+    if os.path.exists(proj) and re.search(r"type-in-type|impredicative-set|-noinit", open(proj).read()):
+        bad.append(("_CoqProject", 0, "kernel-weakening option"))
+    return bad
+
+
 def prove(prop_files, dep_targets):
     """Build dependencies with make, then compile the property/instance files themselves with coqc so
     that their Print Assumptions output belongs to this run.  Returns a dict."""
@@ -133,6 +169,11 @@ def prove(prop_files, dep_targets):
                 res["failed"].append({"file": pf, "why": "axioms: " + ",".join(sorted(set(bad)))})
             else:
                 res["discharged"] += len(names)
+    forb = scan_forbidden()
+    res["forbidden_constructs"] = ["%s:%d: %s" % f for f in forb]
+    if forb:
+        res["failed"].append({"file": forb[0][0], "why": "forbidden construct (axiom-declaring command, admitted proof or disabled kernel check)",
+                              "log": "\n".join("%s:%d: %s" % f for f in forb[:20])})
     return res
 
 
